@@ -1094,6 +1094,9 @@ class SSHProcess(SSHStreamSession, Generic[AnyStr]):
         super().resume_writing()
 
         for reader in list(self._readers.values()):
+            if self._write_paused:
+                break
+
             reader.resume_reading()
 
     def feed_data(self, data: AnyStr, datatype: DataType) -> None:
